@@ -262,7 +262,11 @@ void vfps::FokkerPlanckMap::applyTo(PhaseSpace::Position &pos) const
         }
         break;
     case FPTracking::stochastic:
-        pos.y -= pos.y*_dampdecr+_normdist(_prng);
+        // damping acts on the distance to the zero-energy bin (as the grid stencil
+        // and the two approximations do), and the result stays on the grid
+        pos.y -= (pos.y-_axis[1]->zerobin())*_dampdecr+_normdist(_prng);
+        pos.y = std::max(static_cast<meshaxis_t>(1),
+        std::min(pos.y,static_cast<meshaxis_t>(_ysize-1)));
         break;
     }
 }
